@@ -52,6 +52,24 @@ CHECKS = {
         note='Filters restricted to integer-sample delays with integer gains (exact shift of the zero-padded FFT filter). '
              'Ray tracer / ray path objects (LazyObj) are covered through the tracer drivers of C02/C18 when built; '
              'until then the check decides the signal half of the property only.'),
+    'C01': dict(
+        spec='RayRel.tla (extends RaySymmetry.tla)', design='12.5',
+        technique='TLA+ relation-algebra spec RayRel.tla (endpoint group of RaySymmetry.tla extended with the scaling law of '
+                  'exponential-profile ice) checked with TLC; its behaviours replayed on the analytic and the numerical gradient-index '
+                  'tracers with every solution compared with the predicted image of the base solution and checked for the relations '
+                  'that hold between its own reported quantities',
+        text='RayRel.tla adds ScaleUp / ScaleDown (endpoints x 2, profile constant a / 2: every ray scales, lengths and times x 2, '
+             'directions unchanged) to Swap, Shift, Turn; TLC checks RConsistent (bookkeeping describes the endpoints; e = ups - '
+             'downs) to depth 5 (7 thorough) over ten base endpoint pairs; depth-6 simulations are executed on SpecializedRayTracer in '
+             'Antarctic, Greenland and a custom exponential profile and on BasicRayTracer: solution sets must be the predicted '
+             'images; every solution: n sin(theta) equal at launch and reception, unit directions in the vertical plane of the '
+             'endpoints, second solution up-then-down and above / not shorter than the first, first never down-then-up, path '
+             'length >= straight distance, c tof / length between n(surface) and n(deepest endpoint); analytic = numerical tracer.',
+        note='Decides necessary conditions of the property (invariants of a true ray, relations between reported quantities, '
+             'covariance under the symmetry group incl. scaling, agreement of the two implementations); it does not integrate the '
+             'reported ray, so "arrives at the receiver" and "equals the line integral" are decided only through those relations. '
+             'Open known finding D37 (analytic tracer loses precision within ~9 degrees of the vertical). The clause "the first '
+             'solution never turns over" is checked in the form that is true of rays (DESIGN 12.5).'),
     'C03': dict(
         spec='PropagateRel.tla', design='12.2',
         technique='TLA+ relation-algebra spec PropagateRel.tla (bilinear bookkeeping of signal and polarization combinations, grid '
@@ -225,7 +243,6 @@ CHECKS = {
 }
 
 NOT_APPLICABLE = {
-    'C01': 'purely numerical (closed-form integrals / root search against a continuous index profile); no discrete state for a TLA+ model, see DESIGN.md section 6',
     'C20': 'static property of the source text against library versions; nothing evolves (the import defect D0 it describes was repaired as a precondition, see known_findings.json)',
 }
 NOT_BUILT = 'specification module not built yet in this round (see DESIGN.md section 9); not claimed rather than claimed with a hollow check'
